@@ -843,7 +843,7 @@ theorem key_mem_of_lookup {d : Dict} {k : Str} {a : Anchored} (h : d.lookup k = 
 
 /-- Distinct names get distinct fresh names (hypothesis of `resolved_oneObj` under `rename`). -/
 def FreshInj (known : List Str) : Prop :=
-  ∀ n1 n2 f, calcUnique n1 known = some f → calcUnique n2 known = some f → n1 = n2
+  ∀ n1 n2 f, n1 ∈ known → n2 ∈ known → calcUnique n1 known = some f → calcUnique n2 known = some f → n1 = n2
 
 theorem resolved_oneObj (mode : Mode) (l r : ANode)
     (hl : OneObj (occs l)) (hr : OneObj (occs r))
@@ -882,7 +882,7 @@ theorem resolved_oneObj (mode : Mode) (l r : ANode)
         rw [hn, h2] at h1
         exact calcUnique_fresh _ _ _ h1 kb'
       · rw [← hn] at h2
-        have := hinj hm _ _ _ h1 h2
+        have := hinj hm _ _ _ kb kb' h1 h2
         rw [hr b hb b' hb' this]
   have LR : ∀ a ∈ occs l, ∀ b ∈ occs r,
       (finalL mode (scan l) (scan r) a).1.name
@@ -941,5 +941,102 @@ theorem resolved_oneObj (mode : Mode) (l r : ANode)
     exact (LR a ha b hb hxy.symm).symm
   · obtain ⟨b, hb, rfl⟩ := List.mem_map.1 hx; obtain ⟨b', hb', rfl⟩ := List.mem_map.1 hy
     exact RR b hb b' hb' hxy
+
+end Ypv.Anchors
+
+namespace Ypv.Anchors
+open Ypv
+
+/-! ### Distinct known names receive distinct fresh names (`FreshInj` holds for `_calc_unique_anchor`) -/
+
+theorem toDigits_inj {a b : Nat} (h : Nat.toDigits 10 a = Nat.toDigits 10 b) : a = b := by
+  have ha := Nat.ofDigitChars_toDigits (b := 10) (n := a) (by omega) (by omega)
+  have hb := Nat.ofDigitChars_toDigits (b := 10) (n := b) (by omega) (by omega)
+  rw [h] at ha
+  omega
+
+theorem prefix_split : ∀ (s t xs ys : List Char), '_' ∉ s → '_' ∉ t →
+    s ++ '_' :: xs = t ++ '_' :: ys → s = t ∧ xs = ys := by
+  intro s
+  induction s with
+  | nil =>
+    intro t xs ys _ ht h
+    cases t with
+    | nil => simp at h; exact ⟨rfl, h⟩
+    | cons c t' =>
+      simp only [List.nil_append, List.cons_append, List.cons.injEq] at h
+      exact absurd (by rw [← h.1]; exact List.mem_cons_self) ht
+  | cons a s' ih =>
+    intro t xs ys hs ht h
+    cases t with
+    | nil =>
+      simp only [List.nil_append, List.cons_append, List.cons.injEq] at h
+      exact absurd (by rw [h.1]; exact List.mem_cons_self) hs
+    | cons c t' =>
+      simp only [List.cons_append, List.cons.injEq] at h
+      obtain ⟨h1, h2⟩ := ih t' xs ys (fun hm => hs (List.mem_cons_of_mem _ hm))
+        (fun hm => ht (List.mem_cons_of_mem _ hm)) h.2
+      exact ⟨by rw [h.1, h1], h2⟩
+
+theorem suffix_split (x y s t : List Char) (hs : '_' ∉ s) (ht : '_' ∉ t)
+    (h : x ++ '_' :: s = y ++ '_' :: t) : x = y ∧ s = t := by
+  have hr : s.reverse ++ '_' :: x.reverse = t.reverse ++ '_' :: y.reverse := by
+    have := congrArg List.reverse h
+    simpa using this
+  obtain ⟨h1, h2⟩ := prefix_split s.reverse t.reverse x.reverse y.reverse (by simpa using hs) (by simpa using ht) hr
+  exact ⟨by simpa using congrArg List.reverse h2, by simpa using congrArg List.reverse h1⟩
+
+/-- The k-th candidate of the loop started at `a` with counter `aid`. -/
+def chainR (a : Str) (aid : Nat) : Nat → Str
+  | 0 => a
+  | k + 1 => suffixed (chainR a aid k) (aid + k)
+
+theorem chainR_shift (a : Str) (aid : Nat) : ∀ k, chainR (suffixed a aid) (aid + 1) k = chainR a aid (k + 1) := by
+  intro k
+  induction k with
+  | zero => simp [chainR]
+  | succ k ih => simp only [chainR] at ih ⊢; rw [ih]; congr 1; omega
+
+theorem calcUniqueFuel_chain : ∀ (fuel : Nat) (a : Str) (aid : Nat) (known : List Str) (f : Str),
+    calcUniqueFuel fuel a aid known = some f → ∃ k, f = chainR a aid k ∧ (a ∈ known → 1 ≤ k) := by
+  intro fuel
+  induction fuel with
+  | zero => intro a aid known f h; simp [calcUniqueFuel] at h
+  | succ n ih =>
+    intro a aid known f h
+    unfold calcUniqueFuel at h
+    split at h
+    · obtain ⟨k, hk, _⟩ := ih _ _ _ _ h
+      exact ⟨k + 1, by rw [hk, chainR_shift], fun _ => by omega⟩
+    · rename_i hc
+      cases h
+      exact ⟨0, rfl, fun hm => absurd (by simpa using hm) hc⟩
+
+theorem chainR_succ_inj (a b : Str) (aid k j : Nat) (h : chainR a aid (k + 1) = chainR b aid (j + 1)) :
+    chainR a aid k = chainR b aid j ∧ k = j := by
+  simp only [chainR, suffixed] at h
+  obtain ⟨h1, h2⟩ := suffix_split _ _ _ _ Nat.underscore_not_in_toDigits Nat.underscore_not_in_toDigits h
+  have := toDigits_inj h2
+  exact ⟨h1, by omega⟩
+
+theorem chainR_inj (a b : Str) (aid : Nat) : ∀ k, chainR a aid k = chainR b aid k → a = b := by
+  intro k
+  induction k with
+  | zero => intro h; exact h
+  | succ k ih => intro h; exact ih (chainR_succ_inj a b aid k k h).1
+
+/-- `_calc_unique_anchor` never hands the same fresh name to two different known names. -/
+theorem freshInj (known : List Str) : FreshInj known := by
+  intro n1 n2 f h1 h2 hf1 hf2
+  obtain ⟨k, hk, hk1⟩ := calcUniqueFuel_chain _ _ _ _ _ hf1
+  obtain ⟨j, hj, hj1⟩ := calcUniqueFuel_chain _ _ _ _ _ hf2
+  have hk' := hk1 h1
+  have hj' := hj1 h2
+  obtain ⟨k', rfl⟩ : ∃ k', k = k' + 1 := ⟨k - 1, by omega⟩
+  obtain ⟨j', rfl⟩ : ∃ j', j = j' + 1 := ⟨j - 1, by omega⟩
+  rw [hk] at hj
+  obtain ⟨_, hkj⟩ := chainR_succ_inj n1 n2 1 k' j' hj
+  subst hkj
+  exact chainR_inj n1 n2 1 _ hj
 
 end Ypv.Anchors
